@@ -30,6 +30,7 @@ type AvahiProvider struct {
 	autoReconnect   bool
 	manualShutdown  bool
 	shutdownCount   uint // counts the manual shutdowns: a reconnect loop started before one ends with it
+	reconnecting    bool // a reconnect loop is running
 	setupSuccessful bool
 	listenerRunning bool
 
@@ -129,6 +130,7 @@ func (a *AvahiProvider) Shutdown() {
 	a.mux.Lock()
 	a.manualShutdown = true
 	a.shutdownCount++
+	a.reconnecting = false
 
 	if !a.setupSuccessful {
 		a.mux.Unlock()
@@ -241,6 +243,14 @@ func (a *AvahiProvider) avahiCallback(event avahi.Event) {
 		return
 	}
 
+	// closing the connection of a failed reconnect attempt is reported as a disconnect as well,
+	// the loop that made the attempt goes on by itself
+	if a.reconnecting {
+		a.mux.Unlock()
+		return
+	}
+	a.reconnecting = true
+
 	logging.Log().Debug("mdns: avahi - disconnected")
 
 	// the server was shutdown, set it to nil so we don't try to call free functions
@@ -262,6 +272,14 @@ func (a *AvahiProvider) avahiCallback(event avahi.Event) {
 
 // attempt to reconnect to the avahi daemon endlessly
 func (a *AvahiProvider) attemptReconnect(cb api.MdnsResolveCB, serviceData *mdnsServiceData, shutdownCount uint) {
+	defer func() {
+		a.mux.Lock()
+		if a.shutdownCount == shutdownCount {
+			a.reconnecting = false
+		}
+		a.mux.Unlock()
+	}()
+
 	for {
 		a.mux.Lock()
 		// a manual shutdown ends this loop for good, also if the provider was started again meanwhile:
